@@ -239,7 +239,7 @@ func TestC05(t *testing.T) {
 		var c behCase
 		k := rapid.IntRange(batch/2, batch).Draw(rt, "batch")
 		for i := 0; i < k; i++ {
-			m, conf := drawMember(rt, opts, 1)
+			m, conf := drawMember(rt, opts, 3)
 			m.Script = fx.Script{Ops: drawHistory(rt, conf, 8)}
 			c.Members = append(c.Members, m)
 		}
